@@ -1,59 +1,146 @@
 (* Properties/C06.v — signed null models keep each node's positive/negative degree and all weights.
-   Only statements; every proof is `exact <lemma of Proofs/Signed*.v, Proofs/NullModel*.v>`. *)
+   Only statements; every proof is `exact <lemma of Proofs/Signed.v, Proofs/NullModel*.v>`.
+
+   Reading guide (definitions in Model/Signed.v, Model/NullModel.v, Proofs/Signed.v):
+     pre und n R                 und = true -> R symmetric on the n x n grid (input contract of the *_und routines)
+     goodq n (a,b,c,d)           a,b,c,d < n and pairwise distinct
+     same_signed_degrees n R R'  for every node: #positive and #negative cells of its row and of its column agree
+     same_entries n R R'         for every value w: the number of cells holding w agrees (the cells are permuted;
+                                 in particular the multisets of positive and of negative weights agree)
+     same_diag n R R'            the diagonal agrees
+     sinv und n R R'             the general form: EVERY sign-only statistic of each row / column, EVERY statistic
+                                 of the multiset of entries, the diagonal, and symmetry (und)
+   Streams: ints = recorded rng.randint(n**4) results, perms = recorded rng.permutation(m) results,
+   ords = the np.argsort results (float-decided: oracle). All theorems hold for ALL such lists; the model
+   itself rejects (None) an `ords`/`perms` entry that is not a permutation of the right range, so
+   "returns Some" = "every oracle order and every permutation draw is a permutation". *)
 From Coq Require Import ZArith QArith List Arith Bool.
-From BCT Require Import Base.Mat Base.ListX Model.Signed Model.NullModel Proofs.Signed.
+From BCT Require Import Base.Mat Base.ListX Model.Signed Model.NullModel Proofs.Signed Proofs.NullModelTop
+  Proofs.NullModelCorr.
 Import ListNotations.
 Open Scope Z_scope.
 
 (* ---------- pick_four_unique_nodes_quickly ---------- *)
-(* for every stream: the four nodes returned are pairwise distinct and < n, and the call
-   consumed at least one draw *)
+(* for every stream: the four nodes returned are pairwise distinct and < n; at least one draw is consumed *)
 Theorem C06_pick4_distinct : forall n s a b c d s', (0 < n)%nat ->
   pick4 n s = Some ((a, b, c, d), s') ->
   (a < n /\ b < n /\ c < n /\ d < n)%nat /\
   (a <> b /\ a <> c /\ a <> d /\ b <> c /\ b <> d /\ c <> d) /\ (length s' < length s)%nat.
 Proof. exact pick4_distinct. Qed.
 
-(* ---------- one accepted swap of randmio_dir_signed (und = false) / randmio_und_signed (und = true) ----------
-   for every matrix (symmetric on the grid if und), every four distinct nodes < n passing the sign test:
-   row and column counts of positive and of negative cells unchanged, the number of cells holding any
-   value w unchanged (the cells are permuted), diagonal unchanged, symmetry kept (und). *)
+(* ...and they are the base-n digits of the first draw whose digits are distinct *)
+Theorem C06_pick4_digits : forall n s q s', pick4 n s = Some (q, s') ->
+  exists pre x, s = pre ++ x :: s' /\ q = digits4 n x /\ distinct4 q = true /\
+                Forall (fun y => distinct4 (digits4 n y) = false) pre.
+Proof. exact pick4_digits. Qed.
+
+(* domain: the call can only return when n >= 4 (for n <= 3 the Python recursion never ends) *)
+Theorem C06_pick4_needs_4 : forall n s q s', (0 < n)%nat -> pick4 n s = Some (q, s') -> (4 <= n)%nat.
+Proof. exact pick4_needs_4. Qed.
+
+(* ---------- one accepted swap of randmio_dir_signed (und = false) / randmio_und_signed (und = true) ---------- *)
 Theorem C06_signed_step_inv : forall und n R q,
   pre und n R -> goodq n q -> cond4 R q = true ->
   same_signed_degrees n R (swap4 und R q) /\ same_entries n R (swap4 und R q) /\
   same_diag n R (swap4 und R q) /\ (und = true -> symn n (swap4 und R q)).
-Proof. intros und n R q Hp Hg Hc. apply (sinv_explicit und). exact (signed_step_inv und n R q Hp Hg Hc). Qed.
+Proof. exact signed_step_explicit. Qed.
 
-(* the same, in the general form: EVERY sign-only statistic of every row/column and EVERY statistic of
-   the multiset of entries is unchanged *)
 Theorem C06_signed_step_inv_general : forall und n R q,
   pre und n R -> goodq n q -> cond4 R q = true -> sinv und n R (swap4 und R q).
 Proof. exact signed_step_inv. Qed.
 
-(* ---------- whole runs: for every stream (of any length; exhaustion returns the current state),
-   the final matrix AND every intermediate state (after each accepted swap) satisfy the invariant
-   w.r.t. the input ---------- *)
+(* ---------- whole runs of randmio_*_signed: for every stream (of any length; exhaustion returns the current
+   state) the final matrix AND the state after every accepted swap satisfy the invariant w.r.t. the input ---------- *)
 Theorem C06_signed_run_inv : forall und n R itr s Rf sf tr, (0 < n)%nat -> pre und n R ->
   randmio_signed und n R itr s = (Rf, sf, tr) ->
-  (same_signed_degrees n R Rf /\ same_entries n R Rf /\ same_diag n R Rf /\ (und = true -> symn n Rf)) /\
-  Forall (fun e => same_signed_degrees n R (snd e) /\ same_entries n R (snd e) /\
-                   same_diag n R (snd e) /\ (und = true -> symn n (snd e))) tr.
-Proof.
-  intros und n R itr s Rf sf tr Hn Hp H.
-  destruct (randmio_signed_inv und n R itr s Rf sf tr Hn Hp H) as [A B].
-  split; [exact (sinv_explicit und n R Rf A)|].
-  eapply Forall_impl; [|exact B]. intros e He. exact (sinv_explicit und n R (snd e) He).
-Qed.
+  let ok := fun M => same_signed_degrees n R M /\ same_entries n R M /\ same_diag n R M /\
+                     (und = true -> symn n M) in
+  ok Rf /\ Forall (fun e => ok (snd e)) tr.
+Proof. exact randmio_signed_meets_property. Qed.
 
-(* non-vacuity: a concrete signed matrix and stream (430 = nodes 0,1,2,3; 6 = collision, retried; 38 = nodes 3,2,1,0)
-   on which two swaps are accepted *)
+Theorem C06_signed_run_inv_general : forall und n R itr s Rf sf tr, (0 < n)%nat -> pre und n R ->
+  randmio_signed und n R itr s = (Rf, sf, tr) ->
+  sinv und n R Rf /\ Forall (fun e => sinv und n R (snd e)) tr.
+Proof. exact randmio_signed_inv. Qed.
+
+(* ---------- null_model_dir_sign (und = false) / null_model_und_sign (und = true) ----------
+   deal_multiset + corr_def: whenever the run returns, for every bin_swaps, wei_freq, stream and oracle orders,
+   the output has the input's signed degrees (in and out), the input's multiset of entries, an empty diagonal,
+   is symmetric (und), carries the rewired sign pattern, and the returned correlations are those of the strength
+   sequences of the (diagonal-cleared) input and the output. *)
+Theorem C06_deal_multiset_corr_def : forall und n W bin_swaps wei_freq ints ords perms r, (0 < n)%nat ->
+  null_model und n W bin_swaps wei_freq ints ords perms = Some r -> null_model_property und n W r.
+Proof. exact null_model_meets_property. Qed.
+
+(* the general form, including the rewired matrix and every intermediate state of the inner rewiring *)
+Theorem C06_null_model_inv_general : forall und n W bin_swaps wei_freq ints ords perms r, (0 < n)%nat ->
+  null_model und n W bin_swaps wei_freq ints ords perms = Some r ->
+  sinv und n (clear_diag W) (nm_W0 r) /\
+  (forall i, (i < n)%nat -> nm_W0 r i i = 0) /\
+  (forall i j, (i < n)%nat -> (j < n)%nat -> Z.sgn (nm_W0 r i j) = Z.sgn (nm_Wr r i j)) /\
+  sinv und n (clear_diag W) (nm_Wr r) /\
+  Forall (fun e => sinv und n (clear_diag W) (snd e)) (nm_trace r) /\
+  nm_corr r = corr4 n (clear_diag W) (nm_W0 r).
+Proof. exact null_model_inv. Qed.
+
+Theorem C06_null_model_rewiring_inv : forall und n W bin_swaps wei_freq ints ords perms r, (0 < n)%nat ->
+  null_model und n W bin_swaps wei_freq ints ords perms = Some r ->
+  let ok := fun M => same_signed_degrees n (clear_diag W) M /\ same_entries n (clear_diag W) M /\
+                     same_diag n (clear_diag W) M /\ (und = true -> symn n M) in
+  ok (nm_Wr r) /\ Forall (fun e => ok (snd e)) (nm_trace r).
+Proof. exact null_model_rewiring_inv. Qed.
+
+Theorem C06_null_model_und_rejects : forall n W bin_swaps wei_freq ints ords perms,
+  symb n W = false -> null_model true n W bin_swaps wei_freq ints ords perms = None.
+Proof. exact null_model_und_rejects. Qed.
+
+(* what a returned correlation triple (cxy, cxx, cyy) means: twice the (co)variance sums over all pairs;
+   cxx >= 0, and cxx = 0 exactly when the sequence is constant (np.corrcoef then gives NaN) *)
+Theorem C06_corr3_var : forall x y n, let '(_, cxx, _) := corr3 x y n in
+  2 * cxx = sum2 (fun i j => (x i - x j) * (x i - x j)) n /\ 0 <= cxx /\
+  (cxx = 0 <-> forall i j, (i < n)%nat -> (j < n)%nat -> x i = x j).
+Proof. exact corr3_var. Qed.
+
+Theorem C06_corr3_cov : forall x y n, let '(cxy, _, cyy) := corr3 x y n in
+  2 * cxy = sum2 (fun i j => (x i - x j) * (y i - y j)) n /\
+  2 * cyy = sum2 (fun i j => (y i - y j) * (y i - y j)) n.
+Proof. exact corr3_cov. Qed.
+
+(* ---------- non-vacuity ---------- *)
+(* 430 = nodes 0,1,2,3; 6 = collision, retried; 38 = nodes 3,2,1,0: two accepted swaps, then the stream ends *)
 Example C06_run_nonvacuous :
   let R := of_rows 0 [[0; 2; -1; 0; 3]; [1; 0; 0; -2; 0]; [-3; 0; 0; 1; 2]; [0; -1; 4; 0; 0]; [2; 0; -2; 1; 0]]%list in
   exists Rf sf tr, randmio_signed false 5 R 1 [430; 6; 38]%list = (Rf, sf, tr)
                    /\ (2 <= length tr)%nat.
 Proof. eexists. eexists. eexists. split; [vm_compute; reflexivity|]. vm_compute. repeat constructor. Qed.
 
+(* directed null model, wei_freq = 1/2 (period 2): two rewirings, then 4 + 3 dealing periods with identity
+   oracle orders and reversed permutations; the dealt matrix differs from the input and from the rewired one *)
+Example C06_null_model_dir_nonvacuous :
+  let W := of_rows 0 [[0; 2; -1; 0; 3]; [1; 0; 0; -2; 0]; [-3; 0; 0; 1; 2]; [0; -1; 4; 0; 0]; [2; 0; -2; 1; 0]]%list in
+  let lens := [8; 6; 4; 2; 5; 3; 1]%nat in
+  exists r, null_model false 5 W 1 (1 # 2) [430; 6; 38]%list (map (seq 0) lens) (map (fun m => rev (seq 0 m)) lens) = Some r
+            /\ zrows 5 (nm_W0 r) = [[0; 0; -1; 1; 1]; [0; 0; 1; -1; 0]; [-2; 2; 0; 0; 2]; [2; -2; 0; 0; 0]; [3; 0; -3; 4; 0]]%list
+            /\ length (nm_trace r) = 2%nat.
+Proof. eexists. split; [vm_compute; reflexivity|]. split; vm_compute; reflexivity. Qed.
+
+(* undirected null model, wei_freq = 0 (one argsort per sign, no permutation draw), bin_swaps = 0 *)
+Example C06_null_model_und_nonvacuous :
+  let W := of_rows 0 [[0; 2; -1; 0; 3]; [2; 0; 0; -2; 1]; [-1; 0; 0; 1; -2]; [0; -2; 1; 0; 0]; [3; 1; -2; 0; 0]]%list in
+  exists r, null_model true 5 W 0 0 []%list [[2; 0; 3; 1]; [1; 2; 0]]%list%nat []%list = Some r
+            /\ zrows 5 (nm_W0 r) = [[0; 1; -2; 0; 3]; [1; 0; 0; -1; 1]; [-2; 0; 0; 2; -2]; [0; -1; 2; 0; 0]; [3; 1; -2; 0; 0]]%list.
+Proof. eexists. split; [vm_compute; reflexivity|]. vm_compute. reflexivity. Qed.
+
 Print Assumptions C06_pick4_distinct.
+Print Assumptions C06_pick4_digits.
+Print Assumptions C06_pick4_needs_4.
 Print Assumptions C06_signed_step_inv.
 Print Assumptions C06_signed_step_inv_general.
 Print Assumptions C06_signed_run_inv.
+Print Assumptions C06_signed_run_inv_general.
+Print Assumptions C06_deal_multiset_corr_def.
+Print Assumptions C06_null_model_inv_general.
+Print Assumptions C06_null_model_rewiring_inv.
+Print Assumptions C06_null_model_und_rejects.
+Print Assumptions C06_corr3_var.
+Print Assumptions C06_corr3_cov.
